@@ -331,3 +331,7 @@ def run(ck):
     # linear relaxation must be the ones C06 establishes (abs on the coefficients, deg2rad, per constraint and period)
     from .c06 import rule_network
     ck.attempt(rule_network)
+    # a site network that was saved and loaded is still "the predefined site": its constraint columns stay attached to their stations
+    # only if the dump / restore keeps the station mapping in registration order
+    from .c09 import rule_station_order_roundtrip
+    ck.attempt(rule_station_order_roundtrip, rid="C16.F7")
